@@ -243,6 +243,8 @@ func checkC11(c *Ctx) {
 
 	checkYAMLBytesBinary(c)
 	c11NewlineTable(c)
+	c11UnprintableAgreesWithEmitter(c)
+	c11BlockLiteralNeedsContent(c)
 
 	// ---- token kinds
 	for _, spec := range []struct{ pkg, fn string }{{yp, "encodeScalar"}, {gp, "encodeScalar"}} {
@@ -412,4 +414,115 @@ func c11NewlineTable(c *Ctx) {
 			fmt.Sprintf("text containing a newline, class %s: %s; reachable results {%s}", row.name,
 				map[bool]string{true: "must be emitted double-quoted (strconv.Quote)", false: "is emitted as a block literal (the bare string)"}[row.wantQuoted], strings.Join(rets, " | ")))
 	}
+}
+
+// c11UnprintableAgreesWithEmitter: the goccy encoder is configured with
+// UseSingleQuote(true); the library's single-quote writer copies a rune
+// verbatim only if unicode.IsPrint holds and otherwise writes a backslash
+// escape — which means nothing inside single quotes, so the reader gets a
+// literal backslash sequence. The CUE-side predicate that sends strings to
+// double quotes (yamlUnprintable) must therefore cover every rune the library
+// would escape: it has to consult the same printability test.
+func c11UnprintableAgreesWithEmitter(c *Ctx) {
+	const gp = "internal/encoding/yaml/goccy"
+	f := c.fn(gp, "yamlUnprintable")
+	info := f.Info()
+	consults := false
+	ast.Inspect(f.Body, func(n ast.Node) bool {
+		if call, ok := n.(*ast.CallExpr); ok {
+			switch calleeName(info, call) {
+			case "unicode.IsPrint", "strconv.IsPrint":
+				consults = true
+			}
+		}
+		return true
+	})
+	// the premise, read from the library source when it is loaded with syntax
+	premise := "not verified (library source not loaded)"
+	if lp := c.Pkgs["github.com/goccy/go-yaml"]; lp != nil && len(lp.Syntax) > 0 {
+		found := false
+		for _, file := range lp.Syntax {
+			for _, d := range file.Decls {
+				fd, ok := d.(*ast.FuncDecl)
+				if !ok || fd.Body == nil || fd.Name.Name != "appendEscapedRune" {
+					continue
+				}
+				ast.Inspect(fd.Body, func(n ast.Node) bool {
+					if call, ok := n.(*ast.CallExpr); ok && exprString(call.Fun) == "unicode.IsPrint" {
+						found = true
+					}
+					return true
+				})
+			}
+		}
+		if found {
+			premise = "verified: goccy appendEscapedRune copies a rune verbatim only under unicode.IsPrint"
+		} else {
+			premise = "NOT confirmed in the loaded library source"
+		}
+	}
+	// UseSingleQuote(true) is what makes the premise matter
+	single := false
+	for _, fn := range c.funcs(c.pkg(gp)) {
+		ast.Inspect(fn.Body, func(n ast.Node) bool {
+			if call, ok := n.(*ast.CallExpr); ok && strings.HasSuffix(exprString(call.Fun), "UseSingleQuote") && len(call.Args) == 1 && exprString(call.Args[0]) == "true" {
+				single = true
+			}
+			return true
+		})
+	}
+	c.check("goccy.unprintable-agrees-with-emitter", f.Name, f.Decl.Pos(), consults || !single,
+		"yamlUnprintable decides which strings must be double-quoted; with UseSingleQuote(true) the library writes backslash escapes for every rune that is not unicode.IsPrint *inside single quotes* (where they are literal text), so the predicate must consult unicode.IsPrint/strconv.IsPrint itself ("+premise+")")
+}
+
+// c11BlockLiteralNeedsContent: a YAML literal block scalar (`|`) whose body has
+// no content line reads back as the empty string, and a body whose first
+// content line is indented needs an explicit indentation indicator the
+// emitter does not write. blockLiteralSafe may therefore answer true only
+// after looking at the string with its leading newlines removed (first
+// content line present and not indented): "\n" must not be emitted as `|`
+// followed by an empty line.
+func c11BlockLiteralNeedsContent(c *Ctx) {
+	const gp = "internal/encoding/yaml/goccy"
+	f := c.fn(gp, "blockLiteralSafe")
+	g := c.graph(f)
+	info := f.Info()
+	trims := map[int]bool{}
+	for _, n := range g.Nodes {
+		visit := func(x ast.Node) {
+			ast.Inspect(x, func(y ast.Node) bool {
+				if call, ok := y.(*ast.CallExpr); ok {
+					switch calleeName(info, call) {
+					case "strings.Trim", "strings.TrimLeft", "strings.TrimPrefix", "strings.TrimFunc":
+						if len(call.Args) == 2 {
+							if v, ok := constString(info, call.Args[1]); ok && strings.Contains(v, "\n") {
+								trims[n.ID] = true
+							}
+						}
+					}
+				}
+				return true
+			})
+		}
+		if n.N != nil {
+			visit(n.N)
+		}
+		for _, e := range n.Succs {
+			if e.Cond != nil {
+				visit(e.Cond)
+			}
+		}
+	}
+	ok := len(trims) > 0
+	for _, r := range g.returns() {
+		rs := g.Nodes[r].N.(*ast.ReturnStmt)
+		if len(rs.Results) == 1 && exprString(rs.Results[0]) == "false" {
+			continue
+		}
+		if !g.mustPassNode(r, trims) {
+			ok = false
+		}
+	}
+	c.check("goccy.block-literal-needs-content-line", f.Name, f.Decl.Pos(), ok,
+		"blockLiteralSafe may report a string as safe for a literal block scalar only after examining it with the leading newlines removed (a content line must exist and must not be indented): `a: \"\\n\"` emitted as `a: |` plus an empty line reads back as \"\"")
 }
